@@ -110,8 +110,19 @@ class Layout:
                 lines.append("        }")
             lines += ["    }", "}"]
             self.files[os.path.join(self.dirs[m["dir"]], m["name"] + ".qml")] = "\n".join(lines) + "\n"
+        # some component files are symbolic links to files kept elsewhere (a shared store, a build tree): X.qml is usable as type X all the same
+        linked = self.rng.random() < 0.3
+        self.links = []
         for p, t in self.files.items():
             os.makedirs(os.path.dirname(os.path.join(root, p)), exist_ok=True)
+            if linked and os.path.basename(p).startswith("Comp") and self.rng.random() < 0.6:
+                store = os.path.join(root, "_store")
+                os.makedirs(store, exist_ok=True)
+                target = os.path.join(store, "f%d.txt" % len(self.links))
+                open(target, "w").write(t)
+                os.symlink(os.path.relpath(target, os.path.dirname(os.path.join(root, p))) if self.rng.random() < 0.5 else target, os.path.join(root, p))
+                self.links.append(p)
+                continue
             open(os.path.join(root, p), "w").write(t)
         # what is NOT a QML component of a directory: files with another or no extension, and a DIRECTORY named like a component
         for i, d in enumerate(self.dirs):
@@ -176,7 +187,9 @@ def run(ctx):
     for i, runs in by_layout.items():
         lay = layouts[i]
         ctx.count(("layout", i, tuple(sorted(lay.files.items()))), len(lay.dirs) >= 2)
-        rep = {"files": lay.files, "sources": [list(p) for p, _ in runs]}
+        rep = {"files": lay.files, "sources": [list(p) for p, _ in runs], "symbolic_links": getattr(lay, "links", [])}
+        if getattr(lay, "links", None):
+            ctx.dist("layout-with-symlinked-components")
         bad = [r for _, r in runs if not isinstance(r, dict) or "visited" not in r]
         if bad:
             ctx.violation("discovery/translation does not terminate normally on this layout: %s" % str(bad[0])[:300], dict(rep, impl_output=str(bad[0])[:1000],
